@@ -58,7 +58,7 @@ def layer_values(tier, lookalikes=False, max_len=None):
 DOC_TEXT_ATTRS = ["author", "version", "repository"]
 SEC_TEXT_ATTRS = ["name", "type", "definition", "reference", "repository"]
 PROP_TEXT_ATTRS = ["name", "unit", "definition", "reference", "dependency", "dependency_value", "value_origin"]
-UNCERTAINTIES = [0, 0.0, 0.5, 1e-7, "0.5", 3, -2.5]
+UNCERTAINTIES = [0, 0.0, 0.5, 1e-7, "0.5", 3, -2.5, 0.000123456789012]
 
 
 def attr_doc(kind, attr, value):
